@@ -526,11 +526,16 @@ func runRandomWorkload(rcx *RunCtx, o workloadOpts) {
 		rcx.Count("requests", countReqs(w))
 		rcx.Count("backend.calls", fs.NCalls)
 	})
-	rcx.Count("max_concurrent_backend_calls", 0)
 	if maxActive < 2 {
 		rcx.Trivial = true
 	} else {
 		rcx.Count("runs_with_concurrent_backend_calls", 1)
+		if maxActive >= 3 {
+			rcx.Count("runs_with_3_or_more_backend_calls_in_flight", 1)
+		}
+		if maxActive >= 5 {
+			rcx.Count("runs_with_5_or_more_backend_calls_in_flight", 1)
+		}
 	}
 	finishRun(rcx)
 }
